@@ -53,6 +53,12 @@ func c07Run(e *Env, tlsShim bool) {
 	maxSize := []uint32{65536, 1152, 300, 70000, 4096}[t.Choose(5)]
 	cacheSize := []uint16{2048, 1, 2, 7, 64, 4096}[t.Choose(6)]
 	nMsg := 1 + t.Choose(12)
+	// the connection's message pool recycles objects in two runs out of three (a frame without a payload decoded
+	// into an object that carried one before must not inherit it)
+	if pc := []uint32{0, 1, 1024}[t.Choose(3)]; e.PoolCapacity == 0 && pc > 0 {
+		e.PoolCapacity = pc
+		e.Probe("pool.recyclingOn")
+	}
 	withOversize := t.Chance(1, 3)
 	// an application-supplied request monitor (WithRequestMonitor) filters some messages out: they are not
 	// delivered, everything around them is
@@ -241,7 +247,7 @@ func c07Run(e *Env, tlsShim bool) {
 		sopts := []tcpServer.Option{
 			options.WithMux(router), options.WithMaxMessageSize(maxSize), options.WithConnectionCacheSize(cacheSize),
 			options.WithRequestMonitor(monitor),
-			c10UDPSeam{tick: func(func(now time.Time) bool) {}},
+			c10UDPSeam{tick: func(func(now time.Time) bool) {}, poolCap: e.PoolCapacity},
 			options.WithErrors(func(err error) { e.mu.Lock(); errs = append(errs, err.Error()); e.mu.Unlock() }),
 			options.WithOnNewConn(func(cc *tcpClient.Conn) { e.mu.Lock(); srvConn = cc; e.mu.Unlock() }),
 			options.WithInactivityMonitor(100000*time.Second, func(cc *tcpClient.Conn) { _ = cc.Close() }),
